@@ -204,6 +204,11 @@ func (so *Sorts) structSort(n *types.Named, st *types.Struct, ts string) string 
 	so.decls = append(so.decls,
 		fmt.Sprintf("(declare-fun enc_%s (%s) Bytes)", name, name),
 		fmt.Sprintf("(declare-fun dec_%s (Bytes) %s)", name, name))
+	so.decls = append(so.decls,
+		fmt.Sprintf("(declare-fun jsonEnc_%s (%s) Bytes)", name, name),
+		fmt.Sprintf("(declare-fun jsonDec_%s (Bytes) %s)", name, name))
+	so.sig.Funs["jsonEnc_"+name] = &FunSig{Args: []string{name}, Ret: "Bytes"}
+	so.sig.Funs["jsonDec_"+name] = &FunSig{Args: []string{"Bytes"}, Ret: name}
 	so.sig.Funs["enc_"+name] = &FunSig{Args: []string{name}, Ret: "Bytes"}
 	so.sig.Funs["dec_"+name] = &FunSig{Args: []string{"Bytes"}, Ret: name}
 	// zero value
